@@ -28,8 +28,9 @@ def batches {α : Type} (n : Nat) : Nat → List α → List (List α)
   | 0, _ => []
   | fuel+1, xs =>
     if xs.isEmpty then [] else
-    if n = 0 then [xs] else   -- `batch.len() >= 0` is true after the first push: every item its own batch; see note
-    xs.take n :: batches n fuel (xs.drop n)
+    -- `batch.len() >= batch_size` is tested after each push, so a batch size of 0
+    -- behaves like 1: every item is its own batch
+    xs.take (max n 1) :: batches n fuel (xs.drop (max n 1))
 
 /-- insertion of a row into a list sorted by `(key, value)` (the effect of `kvs.sort()`) -/
 def insertRow (r : Key × Nat) : List (Key × Nat) → List (Key × Nat)
